@@ -833,6 +833,25 @@ class WorkflowStateMachine(object):
         if current_workflow_status != new_workflow_status:
             workflow_state.status = new_workflow_status
 
+            # If the workflow is resumed and it is already completed, then ensure there
+            # is no unreachable barrier task(s) as when the last task is completed.
+            if (
+                current_workflow_status == statuses.PAUSED
+                and workflow_state.status == statuses.SUCCEEDED
+            ):
+                cls.fail_on_unreachable_barriers(workflow_state)
+
+    @classmethod
+    def fail_on_unreachable_barriers(cls, workflow_state):
+        unreachable_barriers = workflow_state.get_unreachable_barriers()
+
+        if unreachable_barriers:
+            workflow_state.status = statuses.FAILED
+
+            for entry in unreachable_barriers:
+                e = exc.UnreachableJoinError(entry["id"], entry["route"])
+                workflow_state.conductor.log_error(e, task_id=entry["id"], route=entry["route"])
+
     @classmethod
     def process_event(cls, workflow_state, event):
         if isinstance(event, events.WorkflowExecutionEvent):
